@@ -182,7 +182,8 @@ class Kroupa:
             mass (float or array): sampled mass values.
         """
         if slope == 1:
-            A = np.log(xmax) - np.log(xmin)
+            # inverse CDF of x^-1 is log-uniform (the general formula divides by 0)
+            return xmin * (xmax / xmin) ** x
         else:
             A = (1.0 / (1 - slope)) * (pow(xmax, 1.0 - slope) - pow(xmin, 1 - slope))
         mass = (1.0 - slope) * x * A + xmin ** (1.0 - slope)
